@@ -136,7 +136,7 @@ func vgfRunC05(t *rapid.T, kinds []string) {
 	m.close()
 	closed = true
 	c.Key("c05frag", cfg.String(), m.hist)
-	c.Class("kind:"+cfg.Kind).ClassIf(cfg.Bg, "bgQueue").ClassIf(skipped > 0, "comparisonSkippedWhileSnapshotPending")
+	c.Class("kind:"+cfg.Kind).ClassIf(cfg.Bg, "bgQueue").ClassIf(cfg.FileLimit, "openFileLimitExceeded").ClassIf(skipped > 0, "comparisonSkippedWhileSnapshotPending")
 	c.ClassIf(emptySnaps > 0, "snapshotOfEmptyFragment").ClassIf(writesAfterEmptySnap, "writesAfterSnapshotOfEmptyFragment").ClassIf(noopRoaring > 0, "roaringImportChangingNothing")
 	for ev := range m.events {
 		c.Class(ev)
